@@ -16,6 +16,7 @@ import Golib.Proof.C03OverSkip
 import Golib.Proof.C03Run
 import Golib.Proof.C03Seq
 import Golib.Proof.C03Fresh
+import Golib.Proof.C03Multi
 import Golib.Gen.FactsC03
 
 namespace Golib.C03
@@ -383,6 +384,44 @@ example : (Container.arr (Array.range 4096)).Inv ∧ (Array.range 4096).size = 4
   refine ⟨⟨?_, ?_, by simp, by simp⟩, by simp, by simp, by simp [bitmapAddRaw]⟩
   · unfold Sorted; rw [Array.toList_range]; exact List.pairwise_lt_range
   · intro y hy; rw [Array.toList_range, List.mem_range] at hy; omega
+
+/-- Several bitmaps used alternately are independent (the multi-object layer of the driver,
+`Golib/Model/C03.lean`: four objects, `obj k` switches the current one).  For every sequence of
+parsed lines `ts` and every object `k`: running ONLY the lines addressed to `k` (`ownOps`: the
+non-`obj` lines issued while `k` is current) on a single fresh object gives exactly the final
+state object `k` has after the interleaved run and exactly the answers it gave there (`ownOuts`)
+— whatever is done to the other objects in between has no influence.  The same holds from any
+multi-object state `m` (second clause), and the raw-line entry points of the driver are these
+functions on `toks` of the lines (third and fourth clause). -/
+theorem c03_objects_independent (ts : List (List String)) (k : Nat) :
+    runToks (some St.init) (ownOps k 0 ts) =
+      ((runToksM MSt.init ts).1.objs k, ownOuts k 0 ts (runToksM MSt.init ts).2) ∧
+    (∀ m : MSt, runToks (m.objs k) (ownOps k m.cur ts) =
+      ((runToksM m ts).1.objs k, ownOuts k m.cur ts (runToksM m ts).2)) ∧
+    (∀ ls, runOpsM MSt.init ls = (runToksM MSt.init (ls.map Golib.Proto.toks)).2) ∧
+    (∀ o ls, runOps o ls = (runToks o (ls.map Golib.Proto.toks)).2) :=
+  ⟨runToksM_proj ts MSt.init k, fun m => runToksM_proj ts m k, fun _ => rfl,
+    fun o ls => runOps_eq_runToks ls o⟩
+
+/-- Two objects, `add` into both alternately, `len` on each.  (The driver parses decimal strings
+with `String.toNat?`, which the kernel cannot evaluate, so the concrete run is checked by
+`#guard` — evaluation by the compiler at build time — and the `example` instantiates the
+theorem on it.) -/
+def exObjs : List (List String) :=
+  [["add", "1"], ["obj", "1"], ["add", "70000"], ["add", "5"], ["len"], ["obj", "0"], ["len"],
+   ["add", "2"], ["obj", "1"], ["len"], ["it", "0"], ["obj", "0"], ["add", "3"], ["len"], ["obj", "1"],
+   ["itnext", "0", "1"]]
+
+#guard (runToksM MSt.init exObjs).2 ==
+  ["true", "ok", "true", "true", "2", "ok", "1", "true", "ok", "2", "ok", "ok", "true", "3", "ok",
+   "[5] more=true"]
+#guard ownOps 1 0 exObjs == [["add", "70000"], ["add", "5"], ["len"], ["len"], ["it", "0"], ["itnext", "0", "1"]]
+#guard ownOuts 1 0 exObjs (runToksM MSt.init exObjs).2 == ["true", "true", "2", "2", "ok", "[5] more=true"]
+#guard (runToks (some St.init) (ownOps 1 0 exObjs)).2 == ["true", "true", "2", "2", "ok", "[5] more=true"]
+#guard (runToks (some St.init) (ownOps 0 0 exObjs)).2 == ["true", "1", "true", "true", "3"]
+
+example : (runToks (some St.init) (ownOps 1 0 exObjs)).2 = ownOuts 1 0 exObjs (runToksM MSt.init exObjs).2 := by
+  rw [(c03_objects_independent exObjs 1).1]
 
 /-- What the hand-written model takes from the source text, re-extracted from /repo by go/ast
 on every run (`Golib/Gen/FactsC03.lean`; a shape that is not found is emitted as `false`/`0`, so
